@@ -170,7 +170,7 @@ func (w *c09World) observe(sys ActorSystem) [][]int {
 				reg = false
 			}
 		}
-		out = append(out, []int{b2(w.postBegan[i].Load() && !w.postEnded[i].Load()), b2(p.IsRunning()), b2(w.postEnded[i].Load()), b2(reg)})
+		out = append(out, []int{b2(w.postBegan[i].Load() && !w.postEnded[i].Load()), b2(c09Alive(p)), b2(w.postEnded[i].Load()), b2(reg)})
 		ch := []int{}
 		for _, c := range tr.children(p) {
 			ch = append(ch, w.index(c))
@@ -179,6 +179,11 @@ func (w *c09World) observe(sys ActorSystem) [][]int {
 		out = append(out, ch)
 	}
 	return out
+}
+
+// alive: the running bit is set and no stop is in progress (a suspended actor is alive)
+func c09Alive(p *PID) bool {
+	return p.IsRunning() || (p.IsSuspended() && p.isStateSet(runningState) && !p.isStateSet(stoppingState))
 }
 
 func c09ObsEq(a, b [][]int) bool {
@@ -295,6 +300,15 @@ func c09RunScenario(t *testing.T, idx int, sc c09Scenario) c09ScOut {
 					w.log("ret", a, err)
 				}()
 			}
+		case "suspend":
+			// what the supervision path does to a faulty actor it has no directive for
+			a := c09Int(act[1])
+			pp := w.pid(a)
+			if pp == nil || !pp.IsRunning() {
+				flag = 1
+				break
+			}
+			pp.suspend("verif: fault without directive")
 		case "restart":
 			a := c09Int(act[1])
 			pp := w.pid(a)
